@@ -434,7 +434,43 @@ def spec_reading_cases(ctx):
                                  f"{rname}: kernel reading the spec, evaluated under spec {sname} after another spec was used, gave {got[:100]} expected {want[:100]}")
                     else:
                         n_ok += 1
-    ctx.count("spec-reading kernel x 2 specs alternating x 4 routes x fwd/rev: agree", n_ok)
+                # the library's own spec-carrying interpreter, the PathVisualizer: what it hands to its renderer is the same path
+                for dec in ("", "(arch_spec=S)"):
+                    src = (f"@move{dec}\ndef main(x0: float):\n    f = schedule.device_fn(kz, [0], [0])\n    r = schedule.reverse(f)\n    {callee}(p0=x0)\n    {callee}(2.0)\n")
+                    rep = {"kernel": ksrc, "main": src, "spec": sname, "route": "PathVisualizer" + dec, "history": "specs A,B,A alternating, twice"}
+                    ctx.evaluations += 1
+                    try:
+                        drawn = _visualized(kernels.define(src, S=S, kz=kz)["main"], (2.0,), S)
+                    except Exception as e:
+                        ctx.fail({"kind": "no-path", "route": "PathVisualizer" + dec, "spec_reading_kernel": True}, rep,
+                                 f"PathVisualizer{dec} carrying spec {sname}: spec-reading kernel did not play a path: {type(e).__name__}: {str(e)[:120]}")
+                        continue
+                    got = [pos_text(tc.abstract_path(pv.path)) for pv in drawn]
+                    if got != [want, want]:
+                        ctx.fail({"kind": "wrong-path", "route": "PathVisualizer" + dec, "spec_reading_kernel": True, "reversed": rev}, rep,
+                                 f"PathVisualizer{dec} carrying spec {sname}: kernel reading the spec gave {str(got)[:120]} expected twice {want[:100]}")
+                    else:
+                        n_ok += 1
+    ctx.count("spec-reading kernel x 2 specs alternating x (4 routes + PathVisualizer on both compilations) x fwd/rev: agree", n_ok)
+
+
+def _visualized(m, args, S):
+    """the paths the library's PathVisualizer (a spec-carrying interpreter) hands to its renderer"""
+    from vcommon import stubs
+    stubs.install_matplotlib_stubs()
+    from bloqade.shuttle.visualizer import PathVisualizer
+    from bloqade.shuttle.visualizer.renderers.interface import RendererInterface
+
+    class Rec(RendererInterface):
+        def __init__(self): self.paths = []
+        def render_traps(self, traps, zone_id): pass
+        def render_path(self, pth): self.paths.append(pth)
+        def set_title(self, title): pass
+        def show(self): pass
+        def clear_paths(self): pass
+    rec = Rec()
+    PathVisualizer(m.dialects, arch_spec=S, renderer=rec).run(m, tuple(args), {})
+    return rec.paths
 
 
 BRANCH_SRC = """
